@@ -36,7 +36,7 @@ STREAM_KINDS = ['host', 'exit', 'exit-inside', 'ip', 'resolve', 'internal', 'non
 ANSWERS = ['built', 'launched', 'extended', 'guard_wait', 'failed', 'closed', 'unknown', 'noncircuit', 'zero', 'false', 'emptystr', 'emptylist',
            'none', 'dna', 'raise', 'fresh']
 FALSY = {'zero': 0, 'false': False, 'emptystr': '', 'emptylist': []}
-DELIVERY = ['now', 'deferred', 'coroutine']
+DELIVERY = ['now', 'deferred', 'coroutine', 'deferred-after-removal']      # last: the attacher is removed before its Deferred answers arrive
 
 
 def stream_event(kind, sid):
@@ -82,7 +82,7 @@ class Attacher(object):
         self.calls.append(stream.id)
         if self.delivery == 'now':
             return self.answer_for(stream)
-        if self.delivery == 'deferred':
+        if self.delivery in ('deferred', 'deferred-after-removal'):
             d = defer.Deferred()
             self.pending.append((d, stream))
             return d
@@ -167,7 +167,7 @@ def run_partA(kinds, answer, delivery):
             ev = stream_event(kind, sid)
             impl.sim.event(ev)
             impl.sim.pump()
-        if delivery == 'deferred':
+        if delivery in ('deferred', 'deferred-after-removal'):
             # the attacher makes up its mind only now, after another event went by
             impl.event('CIRC', M.circ_line(1, 'BUILT', 3))
             # ... and Tor said more about the waiting streams themselves (address remapped from its cache, still unattached)
@@ -178,11 +178,23 @@ def run_partA(kinds, answer, delivery):
             impl.sim.pump()
             if answer == 'fresh':
                 build_circuit(impl, 2, 'BUILT')
+            if delivery == 'deferred-after-removal':
+                # the streams were handed to this attacher while it was installed: its answers still decide them
+                st.set_attacher(None, w.reactor)
+                impl.sim.pump()
             att.fire_pending()
             impl.sim.pump()
+        # the streams end as Tor reports it: the first one FAILED and then CLOSED (two events for one end), the other just CLOSED;
+        # neither is a new stream, nobody is asked again
+        for j, sid_ in enumerate(sids):
+            if j == 0:
+                impl.sim.event('STREAM %d FAILED 0 www.example.com:80 REASON=TIMEOUT' % sid_)
+            impl.sim.event('STREAM %d CLOSED 0 www.example.com:80 REASON=%s' % (sid_, 'TIMEOUT' if j == 0 else 'DONE'))
+        impl.sim.pump()
         cmds = impl.sim.commands[base:]
         attach = [c for c in cmds if c.startswith('ATTACHSTREAM')]
-        other = [c for c in cmds if not c.startswith('ATTACHSTREAM') and not c.startswith('GETINFO ip-to-country')]
+        other = [c for c in cmds if not c.startswith('ATTACHSTREAM') and not c.startswith('GETINFO ip-to-country')
+                 and not (delivery == 'deferred-after-removal' and c == 'SETCONF __LeaveStreamsUnattached=0')]
         for sid, kind in zip(sids, kinds):
             mine = [c for c in attach if c.split()[1] == str(sid)]
             is_exit = kind in ('exit', 'exit-upper')
@@ -195,7 +207,7 @@ def run_partA(kinds, answer, delivery):
             elif answer == 'built':
                 want = ['ATTACHSTREAM %d 1' % sid]
             elif answer == 'fresh':
-                want = ['ATTACHSTREAM %d %d' % (sid, 2 if delivery == 'deferred' else 1)]
+                want = ['ATTACHSTREAM %d %d' % (sid, 2 if delivery in ('deferred', 'deferred-after-removal') else 1)]
             elif answer == 'none':
                 want = ['ATTACHSTREAM %d 0' % sid]
             else:
